@@ -208,6 +208,54 @@ def cfg_false(attrs, cfg_test, features):
     return False
 
 
+# the property names interface and override declarations; sv::msg_attr is not permuted: the order of forwarded
+# attributes is meaningful to rustc itself (a derive must precede its helper attributes)
+REPEATABLE = ("sv::messages", "sv::override_entry_point")
+PERMUTE = [None]   # set by assemble(): None | "rev" | "rot" | ("swap", k)
+
+
+def _perm(n, how):
+    idx = list(range(n))
+    if n < 2 or how is None:
+        return idx
+    if how == "rev":
+        return idx[::-1]
+    if how == "rot":
+        return idx[1:] + idx[:1]
+    if isinstance(how, tuple) and how[0] == "swap":
+        k = how[1] % (n - 1)
+        idx[k], idx[k + 1] = idx[k + 1], idx[k]
+        return idx
+    raise CheckError(f"unknown permutation {how}")
+
+
+def permute_text(text, found, how):
+    """Reorder the handler methods of every sylvia item, and its repeatable attributes, by swapping the source text of the
+    slots (slot i receives the text of element perm[i]); everything between the slots stays in place."""
+    lines = text.split("\n")
+    offs = [0]
+    for ln_ in lines:
+        offs.append(offs[-1] + len(ln_) + 1)
+
+    def rng(span):
+        return (offs[span[0] - 1] + span[1], offs[span[2] - 1] + span[3])
+    edits = []   # (start, end, replacement)
+    for it in found:
+        item = it["item"]
+        handlers = [sub for sub in item["items"] if sub.get("k") == "fn" and any(a["path"] == "sv::msg" for a in sub["attrs"])]
+        groups = [[rng(h["span"]) for h in handlers]]
+        attrs = [a for a in item["attrs"] if a["path"] in REPEATABLE]
+        groups.append([rng(a["span"]) for a in attrs])
+        for slots in groups:
+            pm = _perm(len(slots), how)
+            for i, src_i in enumerate(pm):
+                if i != src_i:
+                    edits.append((slots[i][0], slots[i][1], text[slots[src_i][0]:slots[src_i][1]]))
+    for st, en, rep in sorted(edits, key=lambda e: -e[0]):
+        text = text[:st] + rep + text[en:]
+    return text
+
+
 def process_tree(src_root_file, dst_root_file, counter, crate, splice=True):
     """Copy the module tree rooted at src_root_file to dst (same relative layout), splicing probes.
     Collect sylvia items with module paths into crate.items."""
@@ -229,6 +277,15 @@ def process_tree(src_root_file, dst_root_file, counter, crate, splice=True):
         for it in found:
             if it["in_fn"]:
                 raise CheckError(f"{src_file}: sylvia item inside a function body is not supported by the corpus model")
+        if PERMUTE[0] is not None and found:
+            text = permute_text(text, found, PERMUTE[0])
+            tmp = os.path.join(os.path.dirname(dst_file) or ".", ".perm-" + os.path.basename(dst_file))
+            os.makedirs(os.path.dirname(tmp), exist_ok=True)
+            with open(tmp, "w") as f:
+                f.write(text)
+            ast = util.syn_ast(tmp)
+            os.unlink(tmp)
+            found = find_sylvia_items(ast, dst_file, modpath)
         if splice and found:
             text = splice_probes(text, found, counter)
         os.makedirs(os.path.dirname(dst_file), exist_ok=True)
@@ -329,8 +386,9 @@ def copy_module_tree(src_root, dst_root):
     shutil.copyfile(src_root, dst_root)
 
 
-def assemble(repo, dest, include_examples=True, witness_dirs=(), sylvia_features=None, splice=True, include_ui=True):
+def assemble(repo, dest, include_examples=True, witness_dirs=(), sylvia_features=None, splice=True, include_ui=True, permute=None):
     """Build the scratch workspace under dest. Returns list[SourceCrate]."""
+    PERMUTE[0] = permute
     if os.path.exists(dest):
         shutil.rmtree(dest)
     os.makedirs(dest)
